@@ -256,8 +256,8 @@ namespace Dune {
     }                                                             \
     return out;                                                   \
   }                                                               \
-  template<class T, std::size_t S, std::size_t A>                                \
-  auto operator SYMBOL(const Simd::Scalar<T> s, const LoopSIMD<T,S,A> &v) { \
+  template<class T, std::size_t S, std::size_t A, class U>                       \
+  auto operator SYMBOL(const U s, const LoopSIMD<T,S,A> &v) {            \
     Simd::Mask<LoopSIMD<T,S,A>> out;                                     \
     DUNE_PRAGMA_OMP_SIMD                                          \
     for(std::size_t i=0; i<S; i++){                               \
